@@ -27,7 +27,7 @@ def replay_file(path, repo):
         if same:
             return 0, "not reproduced: both interpreters agree (log %s)" % ra["log_digest"][:12]
         for ea, eb in zip(ra["events"], rb["events"]):
-            if ea.get("s") != eb.get("s") or ea.get("chg") != eb.get("chg"):
+            if ea.get("d") != eb.get("d") or ea.get("chg") != eb.get("chg"):
                 return 1, "reproduced I5 at event %d %s: %s | %s" % (
                     ea["i"], json.dumps(ea["op"]), ea.get("s", "")[:100], eb.get("s", "")[:100])
         return 1, "reproduced I5 (reference side differs between interpreters)"
